@@ -28,8 +28,9 @@ type EnvStep struct {
 	Resp Resp
 	// fire: earliest armed timer whose creation site contains Sub
 	Sub string
-	// spawn-caller (client role)
-	Spec ReqSpec
+	// spawn-caller (client role); WaitDone: not before this many callers of the explored phase have returned
+	Spec     ReqSpec
+	WaitDone int
 	// capacity
 	N int
 
@@ -89,6 +90,16 @@ func (o *envOp) Enabled() bool {
 		return st.Call < len(h.Calls) && !h.Calls[st.Call].Returned && len(h.Calls[st.Call].gate) == 0
 	case "fire":
 		return o.t.timer(st.Sub) != nil
+	case "spawn-caller":
+		if st.WaitDone > 0 && o.t.hc != nil {
+			n := 0
+			for _, c := range o.t.hc.Calls {
+				if c.Done && c.Tag != "warm" {
+					n++
+				}
+			}
+			return n >= st.WaitDone
+		}
 	case "inject":
 		if o.t.hc != nil {
 			if st.Conn >= len(o.t.hc.Conns) {
